@@ -27,6 +27,9 @@ RULE = ('hostile programs: every atom, functor name, goal name, head name and va
 ASSUMPTIONS = ['head names that are not identifiers are rejected by the compiler (counted, not judged)',
                'the AST whitelist describes the code shapes the generator is documented to emit (loops over query/unify, '
                'assignments, yield/return/break, if on flags)']
+RULE_ADDED = (' Added after the rounds of independently written changes (DESIGN.md 12.2): ' +
+              'long atoms with characters that need escaping at every offset; output written to a file and loaded with load_script_from_file; encoding declarations and UTF-7 sequences in atoms; hostile queries after clear(); variable names next to the reserved ones.')
+RULE = RULE + RULE_ADDED
 
 ALLOWED_NODES = (ast.Module, ast.FunctionDef, ast.arguments, ast.arg, ast.Assign, ast.Name, ast.Load, ast.Store, ast.Call,
                  ast.Constant, ast.List, ast.For, ast.If, ast.Expr, ast.Yield, ast.Return, ast.Break, ast.Pass)
